@@ -150,16 +150,44 @@ def step (c : Cfg) (s : St) (i : Nat) : Option St :=
 
 def sys (c : Cfg) : Sys St Nat := { init := init c, step := step c }
 
-/-- the promise's logical content: the mailbox, or the message a waiter is holding -/
-def borrowedOf : APc → Option Res
-  | .borrowed r => some r
-  | _ => none
-
+/-- the promise's logical content: the mailbox, or (repaired protocol) the message that the
+    waiter holding the mutex has borrowed -/
 def cur (s : St) : Option Res :=
   match s.box with
   | some r => some r
-  | none => (s.pcs.filterMap borrowedOf).head?
+  | none =>
+    match s.mu with
+    | some i =>
+      match s.pcs[i]? with
+      | some (.borrowed r) => some r
+      | _ => none
+    | none => none
 
-def allDone (s : St) : Bool := s.pcs.all fun p => match p with | .done _ => true | _ => false
+/-- a call within the scope of the single-assignment property: Fulfill of a non-nil value,
+    Fail with a non-nil error, Wait -/
+def Call.inScope : Call → Bool
+  | .fulfill (some _) => true
+  | .fail _ (some _) => true
+  | .wait => true
+  | _ => false
+
+def Call.isSetter : Call → Bool
+  | .wait => false
+  | _ => true
+
+/-- a Result that counts as settled: a value or an error is present -/
+def Res.settled (r : Res) : Bool := r.val.isSome || r.err.isSome
+
+/-- the call reported success: Fulfill returned nil / Fail returned true -/
+def APc.isWin : APc → Bool
+  | .done (.ferr none) => true
+  | .done (.bool true) => true
+  | _ => false
+
+def APc.isDone : APc → Bool
+  | .done _ => true
+  | _ => false
+
+def allDone (s : St) : Bool := s.pcs.all APc.isDone
 
 end Biogo.Promise
